@@ -47,7 +47,7 @@ def _pts(a):
 
 
 def surf_desc(name, P, F, planar=False):
-    return {'mesh': name, 'kind': 'surface', 'vertices': _pts(P), 'faces': [[int(x) for x in f] for f in F], 'planar': bool(planar)}
+    return {'mesh': name, 'kind': 'surface', 'vertices': _pts(P), 'faces': [[int(x) for x in f] for f in F], 'planar': bool(planar), 'seed': 0}
 
 
 def grid_faces(nu, nv, tri=True, flip=False):
@@ -71,7 +71,9 @@ def grid_pts(nu, nv, rnd, jxy=0.0, jz=0.0, sx=1.0, sy=1.0):
 
 
 def surfaces(seed, thorough):
+    """members whose name carries the seed depend on it; all the others are fixed (their 'seed' field stays 0)"""
     rnd = random.Random(1000 + seed)
+    fix = random.Random(4242)
     yield surf_desc('tri1', [(0, 0, 0), (2.0, 0.3, 0.1), (0.4, 1.1, 0.7)], [(0, 1, 2)])
     yield surf_desc('tri2_obtuse', [(0, 0, 0), (3.0, 0, 0), (1.4, 0.5, 0.2), (1.6, -2.0, 0.5)], [(0, 1, 2), (1, 0, 3)])
     # fan around an interior vertex, very unequal radii -> obtuse corners, negative cotangents
@@ -79,12 +81,12 @@ def surfaces(seed, thorough):
     P = [(0.1, -0.05, 0.2)] + [(r * math.cos(a), r * math.sin(a), 0.1 * k) for k, (a, r) in enumerate(zip(ang, rad))]
     yield surf_desc('fan5', P, [(0, 1 + k, 1 + (k + 1) % 5) for k in range(5)])
     # exact right-angled grid (cotangent 0 opposite every diagonal), planar, both orientations
-    yield surf_desc('rightgrid3x3', grid_pts(3, 3, rnd), grid_faces(3, 3), planar=True)
-    yield surf_desc('rightgrid3x4_cw', grid_pts(3, 4, rnd), grid_faces(3, 4, flip=True), planar=True)
+    yield surf_desc('rightgrid3x3', grid_pts(3, 3, fix), grid_faces(3, 3), planar=True)
+    yield surf_desc('rightgrid3x4_cw', grid_pts(3, 4, fix), grid_faces(3, 4, flip=True), planar=True)
     yield surf_desc('planar_stretch4x3', [(x + 0.1 * j, y - 0.05 * i, 0.0) for i, x in enumerate([0.0, 0.7, 1.9, 3.0]) for j, y in enumerate([0.0, 1.3, 2.0])],
                     grid_faces(4, 3), planar=True)
     for (nu, nv) in ((3, 4), (2, 6), (5, 3)) + (((6, 7), (4, 4)) if thorough else ()):
-        yield surf_desc('grid%dx%d_j%d' % (nu, nv, seed), grid_pts(nu, nv, rnd, 0.3, 0.4, 1.0, 1.3), grid_faces(nu, nv))
+        yield dict(surf_desc('grid%dx%d_j%d' % (nu, nv, seed), grid_pts(nu, nv, rnd, 0.3, 0.4, 1.0, 1.3), grid_faces(nu, nv)), seed=seed)
     # annulus: two border loops
     n = 6
     th = [2 * math.pi * i / n + 0.2 * math.sin(2 * i) for i in range(n)]
@@ -96,10 +98,10 @@ def surfaces(seed, thorough):
         F += [(a, b, c), (a, c, d)]
     yield surf_desc('annulus6', P, F)
     # two components (jittered patch + far away single triangle)
-    P = grid_pts(3, 3, rnd, 0.25, 0.3) + [(10, 0, 0), (11.5, 0.2, 0), (10.3, 0.9, 1.0)]
+    P = grid_pts(3, 3, fix, 0.25, 0.3) + [(10, 0, 0), (11.5, 0.2, 0), (10.3, 0.9, 1.0)]
     yield surf_desc('two_components', P, grid_faces(3, 3) + [(9, 10, 11)])
     # planar, two components with opposite orientations
-    P = grid_pts(2, 3, rnd, 0.2) + [(5, 0, 0), (6.5, 0.2, 0), (5.3, 0.9, 0), (6.6, 1.4, 0)]
+    P = grid_pts(2, 3, fix, 0.2) + [(5, 0, 0), (6.5, 0.2, 0), (5.3, 0.9, 0), (6.6, 1.4, 0)]
     yield surf_desc('planar_opposite_components', P, grid_faces(2, 3) + [(6, 8, 7), (7, 8, 9)], planar=True)
     # closed surfaces
     yield surf_desc('tetra_closed', [(0, 0, 0), (1.3, 0, 0.1), (0.2, 1.1, 0), (0.3, 0.2, 0.9)], [(0, 2, 1), (0, 1, 3), (1, 2, 3), (0, 3, 2)])
@@ -118,7 +120,7 @@ def surfaces(seed, thorough):
             F += [(a, b, c), (a, c, d)]
     yield surf_desc('torus3x4', P, F)
     # non triangular surfaces (combinatorial operators only)
-    yield surf_desc('quads3x4', grid_pts(3, 4, rnd, 0.2, 0.2), grid_faces(3, 4, tri=False))
+    yield surf_desc('quads3x4', grid_pts(3, 4, fix, 0.2, 0.2), grid_faces(3, 4, tri=False))
     yield surf_desc('mixed_345', [(0, 0, 0), (1, 0, 0), (1, 1, 0.2), (0, 1, 0), (2, 0.5, 0.1), (2.2, 1.6, 0), (1.2, 2.2, 0.3), (0.2, 1.9, 0)],
                     [(0, 1, 2, 3), (1, 4, 2), (2, 4, 5, 6, 7), (3, 2, 7)])
     if thorough:
@@ -132,9 +134,9 @@ def surfaces(seed, thorough):
                 if min(abs(x) for x in ar) > 2e-3:
                     break
             F = [(int(a), int(b), int(c)) if s > 0 else (int(a), int(c), int(b)) for (a, b, c), s in zip(tri, ar)]
-            yield surf_desc('delaunay%d_s%d' % (npt, seed), [(x, y, 0.3 * math.sin(3 * x) + 0.2 * y * y) for x, y in pts], F)
+            yield dict(surf_desc('delaunay%d_s%d' % (npt, seed), [(x, y, 0.3 * math.sin(3 * x) + 0.2 * y * y) for x, y in pts], F), seed=seed)
             if k == 1:
-                yield surf_desc('delaunay%d_planar_s%d' % (npt, seed), [(x, y, 0.0) for x, y in pts], F, planar=True)
+                yield dict(surf_desc('delaunay%d_planar_s%d' % (npt, seed), [(x, y, 0.0) for x, y in pts], F, planar=True), seed=seed)
 
 
 def kuhn(n, rnd, jit):
@@ -157,7 +159,7 @@ def kuhn(n, rnd, jit):
 
 def volumes(seed, thorough):
     rnd = random.Random(2000 + seed)
-    vd = lambda name, P, C: {'mesh': name, 'kind': 'volume', 'vertices': _pts(P), 'cells': [[int(x) for x in c] for c in C]}
+    vd = lambda name, P, C, sd=0: {'mesh': name, 'kind': 'volume', 'vertices': _pts(P), 'cells': [[int(x) for x in c] for c in C], 'seed': sd}
     T = [(0, 0, 0), (1.3, 0, 0.1), (0.2, 1.1, 0), (0.3, 0.2, 0.9)]
     yield vd('tet1', T, [(0, 1, 2, 3)])
     yield vd('tet1_flipped', T, [(1, 0, 2, 3)])
@@ -169,28 +171,29 @@ def volumes(seed, thorough):
     yield vd('cube5', P, [(c(0, 0, 0), c(1, 1, 0), c(1, 0, 1), c(0, 1, 1)), (c(1, 0, 0), c(0, 0, 0), c(1, 1, 0), c(1, 0, 1)), (c(0, 1, 0), c(0, 0, 0), c(1, 1, 0), c(0, 1, 1)),
                       (c(0, 0, 1), c(0, 0, 0), c(1, 0, 1), c(0, 1, 1)), (c(1, 1, 1), c(1, 1, 0), c(1, 0, 1), c(0, 1, 1))])
     P, C = kuhn(1, rnd, 0.2)
-    yield vd('kuhn1_j%d' % seed, P, C)
+    yield vd('kuhn1_j%d' % seed, P, C, seed)
     P, C = kuhn(2, rnd, 0.0)
     yield vd('kuhn2', P, C)
     if thorough:
         P, C = kuhn(2, rnd, 0.2)
-        yield vd('kuhn2_j%d' % seed, P, C)
+        yield vd('kuhn2_j%d' % seed, P, C, seed)
 
 
 def polylines(seed, thorough):
     rnd = random.Random(3000 + seed)
-    pd = lambda name, P, E: {'mesh': name, 'kind': 'polyline', 'vertices': _pts(P), 'edges': [[int(x) for x in e] for e in E]}
+    pd = lambda name, P, E, sd=0: {'mesh': name, 'kind': 'polyline', 'vertices': _pts(P), 'edges': [[int(x) for x in e] for e in E], 'seed': sd}
+    fix = random.Random(555)
     yield pd('single_edge', [(0, 0, 0), (0.3, 0.4, 1.2)], [(0, 1)])
     yield pd('chain_mixed_orient', [(0, 0, 0), (1, 0, 0), (1, 3, 0), (2, 3, 0), (2.25, 3, 0), (7, 3, 1)], [(1, 0), (1, 2), (3, 2), (3, 4), (5, 4)])
     yield pd('cycle5', [(math.cos(k), 2 * math.sin(k), 0.1 * k) for k in range(5)], [(k, (k + 1) % 5) for k in range(5)])
-    yield pd('branched_chords', [(rnd.uniform(0, 3), rnd.uniform(0, 3), rnd.uniform(0, 1)) for _ in range(7)], [(0, 1), (0, 2), (0, 3), (3, 4), (4, 5), (5, 3), (6, 0), (2, 6)])
+    yield pd('branched_chords', [(fix.uniform(0, 3), fix.uniform(0, 3), fix.uniform(0, 1)) for _ in range(7)], [(0, 1), (0, 2), (0, 3), (3, 4), (4, 5), (5, 3), (6, 0), (2, 6)])
     yield pd('two_comp_isolated', [(0, 0, 0), (1, 0, 0), (2, 0.5, 0), (5, 5, 5), (6, 5, 5), (9, 9, 9)], [(0, 1), (1, 2), (4, 3)])
     if thorough:
         for g in range(6):
             n = rnd.randint(5, 9)
             E = [(i, i + 1) for i in range(n - 1)] + [(i, j) for i in range(n) for j in range(i + 2, n) if rnd.random() < 0.35]
             rnd.shuffle(E)
-            yield pd('randgraph%d_s%d' % (g, seed), [(rnd.uniform(0, 3), rnd.uniform(0, 3), rnd.uniform(0, 3)) for _ in range(n)], E)
+            yield pd('randgraph%d_s%d' % (g, seed), [(rnd.uniform(0, 3), rnd.uniform(0, 3), rnd.uniform(0, 3)) for _ in range(n)], E, seed)
 
 
 # ----------------------------------------------------------------------------------------------------------
@@ -331,10 +334,10 @@ def sym_rowsum(name, X, n):
     sc = 1 + np.abs(D).max()
     if np.abs(D - D.T).max() > 1e-10 * sc:
         i = np.unravel_index(np.argmax(np.abs(D - D.T)), D.shape)
-        return '%s: not symmetric, M[%d,%d]=%r but M[%d,%d]=%r' % (name, i[0], i[1], D[i], i[1], i[0], D[i[1], i[0]])
+        return '%s: not symmetric, M[%d,%d]=%r but M[%d,%d]=%r' % (name, i[0], i[1], complex(D[i]) if np.iscomplexobj(D) else float(D[i]), i[1], i[0], complex(D[i[1], i[0]]) if np.iscomplexobj(D) else float(D[i[1], i[0]]))
     rs = np.abs(D.sum(1))
     if rs.max() > 1e-9 * sc:
-        return '%s: row %d sums to %r, expected 0 (largest entry %.3g)' % (name, int(np.argmax(rs)), float(D.sum(1)[np.argmax(rs)]), sc - 1)
+        return '%s: row %d sums to %r, expected 0 (largest entry %.3g)' % (name, int(np.argmax(rs)), float(np.real(D.sum(1)[np.argmax(rs)])), sc - 1)
     return None
 
 
@@ -572,23 +575,33 @@ def ck_v2e(m, r):
     return None
 
 
-def ck_v2f_shape(m, r):
-    B = OP.vertex_to_face_operator(m)
-    if B.shape != (r.nV, r.nF):
-        return 'vertex_to_face_operator: shape %r, documented |V| x |F| = %r' % (B.shape, (r.nV, r.nF))
-    return None
-
-
-def ck_v2f_entries(m, r):
-    B = OP.vertex_to_face_operator(m)
+def _v2f_expected(r):
     exp = np.zeros((r.nV, r.nF))
     for T, f in enumerate(r.F):
         for v in f:
             exp[v, T] = 1.0 / len(f)
+    return exp
+
+
+def ck_v2f_layout(m, r):
+    """documented: 'Matrix M of size |V| x |F| where M[v,f] = 1/len(f)'"""
+    B = OP.vertex_to_face_operator(m)
+    exp = _v2f_expected(r)
+    if B.shape != (r.nV, r.nF):
+        return 'vertex_to_face_operator: shape %r, documented |V| x |F| = %r' % (B.shape, (r.nV, r.nF))
+    if cmp_mat('', B, exp, 1e-12) is not None and cmp_mat('', dense(B).T, exp, 1e-12) is None:
+        return 'vertex_to_face_operator: entries are stored as M[f,v] (|F| x |V|), documented M[v,f] (|V| x |F|)'
+    return None
+
+
+def ck_v2f_entries(m, r):
+    """values and one entry per incidence; the layout (M or its transpose) is judged by ck_v2f_layout only"""
+    B = OP.vertex_to_face_operator(m)
+    exp = _v2f_expected(r)
     D = dense(B)
-    if D.shape == (r.nF, r.nV) and D.shape != (r.nV, r.nF):
-        D = D.T         # layout is judged by ck_v2f_shape
     err = cmp_mat('vertex_to_face_operator (M[v,f] = 1/len(f))', D, exp, 1e-12)
+    if err and D.shape == (r.nF, r.nV):
+        err = cmp_mat('vertex_to_face_operator (transposed: M[f,v] = 1/len(f))', D.T, exp, 1e-12)
     if err:
         return err
     if sp.issparse(B) and B.nnz != sum(len(f) for f in r.F):
@@ -681,30 +694,38 @@ def ck_lap_edges(m, r):
     return None
 
 
-def ck_vol_mass(m, r):
+def _vol_mass(m, r, cells):
     base = np.zeros(r.nV)
     for ic, c in enumerate(r.C):
         for v in c:
             base[v] += r.vol[ic]
     tot = r.vol.sum()
+    fn, b, mult, label = (OP.volume_weight_matrix_cells, r.vol, 1, 'cell') if cells else (OP.volume_weight_matrix, base, 4, 'vertex')
     fmts = {(False, False): (None, 'csr'), (True, False): (None, 'dia'), (False, True): (None, 'coo'), (True, True): (None, 'lil')}
     for inv in (False, True):
         for sq in (False, True):
             for fmt in fmts[(inv, sq)]:
                 kw = {} if fmt is None else {'format': fmt}
-                for fn, b, mult, label in ((OP.volume_weight_matrix, base, 4, 'vertex'), (OP.volume_weight_matrix_cells, r.vol, 1, 'cell')):
-                    nm = '%s(inverse=%s, sqrt=%s%s)' % (fn.__name__, inv, sq, '' if fmt is None else ', format=%r' % fmt)
-                    A = fn(m, inverse=inv, sqrt=sq, **kw)
-                    exp = np.sqrt(b) if sq else b
-                    exp = 1 / exp if inv else exp
-                    err = diag_check(nm, A, exp, fmt or 'csc')
-                    if err:
-                        return err
-                    d = dense(A).diagonal()
-                    back = (1 / d if inv else d) ** (2 if sq else 1)
-                    if abs(back.sum() - mult * tot) > RT * mult * tot:
-                        return '%s: %s masses sum to %r, expected %d * total volume = %r' % (nm, label, float(back.sum()), mult, mult * tot)
+                nm = '%s(inverse=%s, sqrt=%s%s)' % (fn.__name__, inv, sq, '' if fmt is None else ', format=%r' % fmt)
+                A = fn(m, inverse=inv, sqrt=sq, **kw)
+                exp = np.sqrt(b) if sq else b
+                exp = 1 / exp if inv else exp
+                err = diag_check(nm, A, exp, fmt or 'csc')
+                if err:
+                    return err
+                d = dense(A).diagonal()
+                back = (1 / d if inv else d) ** (2 if sq else 1)
+                if abs(back.sum() - mult * tot) > RT * mult * tot:
+                    return '%s: %s masses sum to %r, expected %d * total volume = %r' % (nm, label, float(back.sum()), mult, mult * tot)
     return None
+
+
+def ck_vol_mass_vertices(m, r):
+    return _vol_mass(m, r, False)
+
+
+def ck_vol_mass_cells(m, r):
+    return _vol_mass(m, r, True)
 
 
 NOTES = []
@@ -748,19 +769,20 @@ def ck_lap_tets(m, r):
 
 GRAPH_CHECKS = [('premise', ck_premise), ('graph_laplacian', ck_graph_laplacian), ('adjacency_one', ck_adjacency_one), ('adjacency_length', ck_adjacency_length),
                 ('adjacency_custom', ck_adjacency_custom), ('vertex_to_edge', ck_v2e)]
-FACE_CHECKS = [('vertex_to_face_shape', ck_v2f_shape), ('vertex_to_face_entries', ck_v2f_entries)]
+FACE_CHECKS = [('vertex_to_face_layout', ck_v2f_layout), ('vertex_to_face_entries', ck_v2f_entries)]
+LAYOUT_MESHES = ('tri2_obtuse', 'rightgrid3x4_cw', 'mixed_345')     # the layout does not depend on the mesh: judged on three members (one with |V| = |F|)
 TRI_CHECKS = [('laplacian_cotan', ck_lap_cotan), ('laplacian_uniform', ck_lap_uniform), ('gradient_complex', ck_grad_sc_complex), ('gradient_real', ck_grad_sc_real),
               ('mass_vertices', ck_mass_vertices), ('mass_faces', ck_mass_faces), ('mass_edges', ck_mass_edges),
               ('dual_uniform', ck_dual_uniform), ('dual_cotan', ck_dual_cotan), ('edge_diagonal', ck_edge_diagonal), ('laplacian_edges', ck_lap_edges)]
 FLAT_CHECKS = [('gradient_flat_complex', ck_grad_flat_complex), ('gradient_flat_real', ck_grad_flat_real)]
-VOL_CHECKS = [('volume_mass', ck_vol_mass), ('volume_laplacian', ck_vol_laplacian), ('laplacian_tetrahedra', ck_lap_tets)]
+VOL_CHECKS = [('volume_mass_vertices', ck_vol_mass_vertices), ('volume_mass_cells', ck_vol_mass_cells), ('volume_laplacian', ck_vol_laplacian), ('laplacian_tetrahedra', ck_lap_tets)]
 COT_CHECKS = {'laplacian_cotan', 'dual_cotan', 'edge_diagonal', 'laplacian_edges', 'gradient_complex', 'mass_faces'}
 LIBNAME = {'graph_laplacian': 'graph_laplacian', 'adjacency_one': 'adjacency_matrix', 'adjacency_length': 'adjacency_matrix', 'adjacency_custom': 'adjacency_matrix',
-           'vertex_to_edge': 'vertex_to_edge_operator', 'vertex_to_face_shape': 'vertex_to_face_operator', 'vertex_to_face_entries': 'vertex_to_face_operator',
+           'vertex_to_edge': 'vertex_to_edge_operator', 'vertex_to_face_layout': 'vertex_to_face_operator', 'vertex_to_face_entries': 'vertex_to_face_operator',
            'laplacian_cotan': 'laplacian', 'laplacian_uniform': 'laplacian', 'gradient_complex': 'gradient', 'gradient_real': 'gradient', 'gradient_flat_complex': 'gradient',
            'gradient_flat_real': 'gradient', 'mass_vertices': 'area_weight_matrix', 'mass_faces': 'area_weight_matrix_faces', 'mass_edges': 'area_weight_matrix_edges',
            'dual_uniform': 'laplacian_triangles', 'dual_cotan': 'laplacian_triangles', 'edge_diagonal': 'cotan_edge_diagonal', 'laplacian_edges': 'laplacian_edges',
-           'volume_mass': 'volume_weight_matrix', 'volume_laplacian': 'volume_laplacian', 'laplacian_tetrahedra': 'laplacian_tetrahedra'}
+           'volume_mass_vertices': 'volume_weight_matrix', 'volume_mass_cells': 'volume_weight_matrix_cells', 'volume_laplacian': 'volume_laplacian', 'laplacian_tetrahedra': 'laplacian_tetrahedra'}
 
 
 def checks_for(desc):
@@ -804,7 +826,8 @@ def run_check(fn, m, r):
     except Exception as e:
         import traceback
         tb = traceback.extract_tb(e.__traceback__)
-        where = '%s:%d' % (tb[-1].filename.split('/')[-1], tb[-1].lineno) if tb else '?'
+        lib = [t for t in tb if '/mouette/' in t.filename] or list(tb)
+        where = '%s:%d' % ('/'.join(lib[-1].filename.split('/')[-2:]), lib[-1].lineno) if lib else '?'
         return 'raised %s: %s (at %s)' % (type(e).__name__, e, where)
 
 
@@ -827,9 +850,10 @@ class Runner:
             if not (desc['kind'] == 'surface' and all(len(f) == 3 for f in desc['faces'])):
                 return None
             cs = [c for c in cs if c[0] in COT_CHECKS]
+        if not self.only and (prelude != 'fresh' or desc['mesh'] not in LAYOUT_MESHES):
+            cs = [c for c in cs if c[0] != 'vertex_to_face_layout']
         if self.focus:
-            sel = [c for c in cs if LIBNAME.get(c[0]) == self.focus]
-            cs = sel or cs
+            cs = [c for c in cs if LIBNAME.get(c[0]) == self.focus or (c[0] == 'premise' and prelude == 'fresh')]
         m = r = None
         if prelude == 'warm':
             m = build(desc)
@@ -875,14 +899,13 @@ def main():
         if focus not in LIBNAME.values():
             focus = None
     run = Runner(req.get('known') or [], focus=focus)
-    seeds = (seed, seed + 1, seed + 2) if thorough else (seed,)
+    seeds = tuple(seed + k for k in range(8 if thorough else 2))
     done = set()
     for sd in seeds:
         for desc in itertools.chain(surfaces(sd, thorough), volumes(sd, thorough), polylines(sd, thorough)):
             if desc['mesh'] in done:          # seed independent members run once
                 continue
             done.add(desc['mesh'])
-            desc['seed'] = sd
             for prelude in ('fresh', 'warm', 'angles'):
                 f = run.group(desc, prelude)
                 if f:
